@@ -148,6 +148,9 @@ DIRECTED = [
     ["new 0 8", "w 0 0102030405", "new 1 8", "close 1", "own 0", "close 0", "pos", "new 2 3", "free 2", "used 2", "r 2 9", "w 2 0a0b0c", "w 2 0d", "r 2 2", "pos"],
     ["new 0 8", "w 0 0102030405", "new 1 0", "r 1 2", "close 1", "close 0", "pos", "new 1 20", "free 1", "r 1 30", "w 1 0708", "new 0 0", "r 0 1", "pos"],
     # lengths of 2^31 … 2^36 on a small and on a full buffer
+    # opens of the live buffer that run out of memory at every allocation in turn: the buffer, its name and the other handles stay
+    ["new 0 64", "w 0 0102030405", "newoom 64", "used 0", "new 1 64", "used 1", "r 1 3", "w 1 aabb", "r 0 10", "pos", "newoom 0", "new 2 0", "used 2", "w 2 01", "r 0 5"],
+    ["new 0 9", "newoom 9", "new 1 9", "w 0 010203", "r 1 9", "newoom 5", "w 1 0a0b", "used 0", "r 0 9"],
     ["new 0 100", "w 0 0102030405060708090a"] + ["wx 0 %d" % n for n in XHUGE] + ["pos", "used 0", "r 0 100", "pos"] + ["wx 0 %d" % n for n in XHUGE[:4]] + ["pos"],
     ["new 0 7", "w 0 010203", "r 0 2", "w 0 0405060708"] + ["wx 0 %d" % (2 ** 64 - k) for k in range(1, 9)] + ["pos", "r 0 7", "pos"],
     ["new 0 5"] + ["wz 0 %d" % n for n in HUGE] + ["pos", "w 0 0102030405", "pos"] + ["wz 0 %d" % n for n in HUGE[:3]] + ["r 0 %d" % HUGE[5], "pos", "w 0 ff00ff", "r 0 %d" % HUGE[1], "pos"],
